@@ -31,7 +31,7 @@ ASSUMPTIONS = ['the independent walk (lokiverif.irtree.walk over dataclass field
                '(lokiverif.unitobs.known_defects) no longer reproduces it on the tree under test; until then it lives in replays/C17 '
                'and the avoided draws are counted under excluded_by_construction']
 SHARDS = {'quick': 16, 'thorough': 16}
-BUDGET = {'quick': 50, 'thorough': 1200}
+BUDGET = {'quick': 75, 'thorough': 1200}
 
 _FLAGS = None
 
@@ -63,7 +63,7 @@ def cases(draw, kind=None, thorough=False):
     ops = [['clone', 0, draw(st.integers(0, 3)), 0, 0]]
     for _ in range(nops):
         w = draw(st.integers(0, 99))
-        if w < 10:
+        if w >= 92:     # (hypothesis favours small integers: the rare op sits at the far end)
             ops.append(['clone', draw(st.integers(0, 3)), draw(st.integers(0, 3)), 0, 0])
         else:
             ops.append([EDIT_OPS[draw(st.integers(0, len(EDIT_OPS) - 1))], draw(st.integers(0, 3)),
@@ -398,6 +398,10 @@ _loose = U.loose_type
 
 def check_clone(ctx, case, src_inv, src_snap, clone, clone_inv, clone_snap, variant, src_dirty):
     """oracle right after ``clone = src.clone(...)``"""
+    if src_snap['fgen'].startswith('<fgen raises'):
+        # the source has been edited into a state that cannot even be printed (cleared symbol table, ...): nothing to compare
+        ctx.count('clone:of-unprintable-copy-not-judged')
+        return
     # 1. same code
     if variant == 'plain' and src_snap['fgen'] != clone_snap['fgen']:
         d = U.snapshot_diff({'fgen': src_snap['fgen']}, {'fgen': clone_snap['fgen']})
@@ -501,6 +505,7 @@ def check_case(case, ctx):
         return
     copies = [obj]
     dirty = [False]      # a copy that has been edited (possibly left internally inconsistent by the edit)
+    broken = set()       # copies whose symbol tables lost entries (pop / del / clear)
     obs = observe_all(copies)
     nscopes = len(obs[0][0].scopes)
     effective_with_two = 0
@@ -531,6 +536,8 @@ def check_case(case, ctx):
                 break
             copies.append(new)
             dirty.append(dirty[si])
+            if si in broken:
+                broken.add(len(copies) - 1)
             new_obs = observe_all(copies)
             ctx.count(f'op:clone:{variant}' + (':of-clone' if si > 0 else '') + (':of-edited' if effective_with_two and si == 0 else ''))
             # cloning must not change any existing copy
@@ -546,7 +553,10 @@ def check_case(case, ctx):
                 elif d:
                     ctx.fail(_changed_sig(d[0], d[1]) + ':by-clone', case,
                              f'cloning copy {si} changed copy {j}: {d[0]}: {d[1]}')
-            check_clone(ctx, case, new_obs[si][0], new_obs[si][1], new, new_obs[-1][0], new_obs[-1][1], variant, dirty[si])
+            if si in broken:
+                ctx.count('clone:of-copy-with-dropped-table-entries-not-judged')
+            else:
+                check_clone(ctx, case, new_obs[si][0], new_obs[si][1], new, new_obs[-1][0], new_obs[-1][1], variant, dirty[si])
             obs = new_obs
             continue
         ci = op[1] % len(copies)
@@ -571,6 +581,8 @@ def check_case(case, ctx):
             stop = True
         ctx.count(f'op:{label}')
         dirty[ci] = True
+        if label.startswith(('symtab:pop', 'symtab:del', 'symtab:clear')):
+            broken.add(ci)     # type information thrown away: a later clone of this copy is not judged
         try:
             new_obs = observe_all(copies)
         except Exception as e:  # noqa: the edited copy can be left in a state our walk cannot observe (loki raised in .type etc.)
@@ -595,7 +607,7 @@ def check_case(case, ctx):
         obs = new_obs
     ctx.case(case, nscopes >= 2 and effective_with_two >= 1 and len(copies) >= 2,
              classes + [f'copies:{len(copies)}', f'owned-scopes:{min(nscopes, 8)}'])
-    if len(ctx.samples) < ctx.MAX_SAMPLES and nscopes >= 3 and effective_with_two >= 2:
+    if len(ctx.samples) < ctx.MAX_SAMPLES and nscopes >= 2 and effective_with_two >= 1:
         ctx.sample({'target': case['target'], 'mode': case['mode'], 'ops': case['ops'],
                     'owned_scopes': obs[0][0].scope_labels[:10],
                     'source_of_target_file': U.render_project(case)[case['target'][1]][:1500]})
